@@ -69,45 +69,37 @@ def tab_gen(ctx):
         obs.append(Ob(r, "degree:%d" % k, len(by_deg.get(k, [])) == 1,
                       "exactly one generator polynomial of degree %d (needed by a symbol size of the standard)" % k,
                       detail=by_deg.get(k)))
-    # generator(len) selects by degree
+    # generator(len) selects by degree: the body is folded for every len (a scan of the constant table is unrolled)
     b = f.thir.get(GEN)
     need(b, r, GEN)
-    e = T.sx(b["body"], T.let_env(b["body"]))
-    finds = T.sx_calls(e, "::find")
-    ok = False
-    det = T.sx_show(e)
-    if finds and any(x[0] == "const" and x[1] == "errorcode::GENERATOR_POLYNOMIALS" for x in T.sx_walk(finds[0][2][0])) \
-            and finds[0][2][1][0] == "closure" and not T.sx_calls(e, "::skip") and not T.sx_calls(e, "::rev"):
-        cb = f.thir.get(finds[0][2][1][1])
-        need(cb, r, finds[0][2][1][1])
-        pname = cb["params"][1]["pat"]["name"] if len(cb["params"]) > 1 else None
-        lenname = None
-        for n in T.exprs(cb["body"], "Upvar"):
-            lenname = n["name"]
-
-        def on_call(folder, c):
-            if T.canon(T.callee_of(c)).endswith("::len"):
-                return len(folder.fold(c["args"][0]))
-            return NotImplemented
-        ok = pname is not None and lenname is not None
-        if ok:
-            for L in range(1, 72):
-                for n in range(0, 72):
-                    try:
-                        v = T.Folder(f, env={pname: [0] * L, lenname: n}, on_call=on_call).fold(cb["body"])
-                    except T.Trap:
-                        v = None  # p.len()-1 on an empty slice cannot happen for L>=1
-                    except T.Undecidable as ex:
-                        ok = False
-                        det = "closure not foldable: %s" % ex
-                        break
-                    if bool(v) != (L - 1 == n):
-                        ok = False
-                        det = "predicate(len(p)=%d, len=%d) = %r" % (L, n, v)
-                        break
-                if not ok:
-                    break
-    obs.append(Ob(r, "generator-select", ok, "generator(len) returns the table entry with p.len() - 1 == len", site=T.span_str(b["span"]), detail=det))
+    pn = b["params"][0]["pat"]["name"] if b["params"] and b["params"][0].get("pat", {}).get("k") == "Bind" else None
+    need(pn, r, GEN, "(one plain parameter)")
+    ok = True
+    det = None
+    sel = 0
+    for n in range(0, 72):
+        want = [p for p in polys if len(p) - 1 == n]
+        try:
+            got = T.Folder(f, env={pn: n}, effects=True).run(b["body"])
+        except T.Trap:
+            got = "panic"
+        except T.Undecidable as ex:
+            ok = False
+            det = "cannot decide: generator() is not a scan of the constant table that folds (%s)" % ex
+            break
+        if len(want) == 1:
+            sel += 1
+            if got != want[0]:
+                ok = False
+                det = "generator(%d) yields %s, not the table's polynomial of degree %d" % (n, "a panic" if got == "panic" else "a polynomial of degree %d" % (len(got) - 1) if isinstance(got, list) else repr(got), n)
+                break
+        elif not want and got != "panic":
+            # no polynomial of that degree: any entry returned here would be a wrong-degree generator
+            ok = False
+            det = "generator(%d) yields a value although the table has no polynomial of degree %d" % (n, n)
+            break
+    det = det or "%d degrees select their table entry; every other len in 0..72 panics" % sel
+    obs.append(Ob(r, "generator-select", ok, "generator(len) returns the table entry of degree len for every len that has one (and nothing for any other len in 0..72)", site=T.span_str(b["span"]), detail=det))
     obs += floor(obs, r, 25 + 25 + 1, "generator obligations")
     return obs
 
@@ -353,16 +345,13 @@ def prov_rsenc(ctx):
         if not (z[0] == "call" and z[1].endswith("Iterator::zip")):
             continue
         dst, src = z[2]
-        # dst: step_by(skip(iter_mut(full), block), stride)
+        # dst: any spelling of the strided view full[block], full[block + B], ...
         okd = False
         full = None
-        if dst[0] == "call" and dst[1].endswith("Iterator::step_by") and is_setup_field(dst[2][1], "num_ecc_blocks"):
-            sk = dst[2][0]
-            if sk[0] == "call" and sk[1].endswith("Iterator::skip") and is_var(sk[2][1], bv):
-                im = sk[2][0]
-                if im[0] == "call" and im[1].endswith("iter_mut"):
-                    full = strip_into_iter(im[2][0])
-                    okd = full[0] == "var"
+        dv = view_of(f, dst)
+        if dv and dv[0] == "view" and dv[2] == {(bv,): 1} and is_setup_field(dv[3], "num_ecc_blocks"):
+            full = ("var", dv[1][1], dv[1][2] if len(dv[1]) > 2 else None)
+            okd = True
         # src: ecc[..num_ecc_per_block]
         oks = False
         s2 = strip_into_iter(src)
@@ -376,7 +365,7 @@ def prov_rsenc(ctx):
             good.append(full)
     ok = len(good) == 1
     if ok:
-        res_let = [s for s in sts if s[0] == "let" and s[1] == good[0][2]]
+        res_let = [s for s in sts if s[0] == "let" and (s[1] == good[0][2] or (good[0][2] is None and s[1].split("#")[0] == good[0][1]))]
     ob("output-interleave", ok, "block b's error codewords are written to result positions b, b+B, b+2B, ... (skip(block).step_by(B) zipped with ecc[..k])", detail=det)
     ok = False
     if res_let:
@@ -424,6 +413,10 @@ def view_of(f, e):
     e = strip_into_iter(e)
     if not isinstance(e, tuple):
         return None
+    if e[0] == "call" and f is not None and any(T.canon(n) == e[1] for n in f.thir):
+        e2 = T.inline_pure_helper(f, e)       # a crate-local helper that only builds the iterator
+        if e2 != e:
+            return view_of(f, e2)
     if e[0] == "call" and e[1].endswith("Iterator::chain"):
         a, b = view_of(f, e[2][0]), view_of(f, e[2][1])
         if a and b and a[0] == "view" and b[0] == "view":
@@ -492,8 +485,10 @@ def uniform(ctx):
     sts, _ = T.fn_stmts(f, ECCB)
     need(sts is not None, r, ECCB)
     b = f.thir[ECCB]
-    branches = [s for s in T.stmt_walk(sts) if s[0] in ("if", "match", "loop")]
-    loops = [s for s in T.stmt_walk(sts) if s[0] == "for"]
+    # the body and the private helpers of this module it delegates to (GF arithmetic is checked by GF-OPS)
+    deep = T.fn_stmts_deep(f, ECCB, only=lambda c: c.startswith("errorcode::") and "::galois::" not in c and " as " not in c)
+    branches = [s for _n, ss in deep for s in T.stmt_walk(ss) if s[0] in ("if", "match", "loop")]
+    loops = [s for _n, ss in deep for s in T.stmt_walk(ss) if s[0] == "for"]
     obs = [Ob(r, "no-branch", not branches,
               "ecc_block has no branch besides its two loops (the LFSR that the tests pin for k=5 is the same code for every k)",
               site=T.span_str(b["span"]), detail=[s[0] + "@" + str(s[-1]) for s in branches]),
@@ -677,26 +672,59 @@ def synzero(ctx):
         it = strip_into_iter(loops[0][2])
         over_out = it[0] == "call" and (it[1].endswith("iter_mut") or it[1].endswith("::iter")) and is_var(strip_into_iter(it[2][0]), "out")
         ovar = loops[0][1][0].split("#")[0]
-        upd = [st for st in loops[0][3] if st[0] in ("assign", "assignop") and is_var(st[1] if st[0] == "assign" else st[2], "errors")]
-        okupd = False
-        if len(upd) == 1 and upd[0][0] == "assign":
-            rhs = upd[0][2]
-            det = T.sx_show(rhs)
-            if rhs[0] == "logic" and rhs[1] == "Or":
-                parts = [rhs[2], rhs[3]]
-                okupd = any(is_var(p, "errors") for p in parts) and any(p[0] == "call" and p[1].endswith("::ne") and is_var(p[2][0], ovar) for p in parts)
-        elif len(upd) == 1 and upd[0][0] == "assignop" and upd[0][1] == "BitOrAssign":
-            rhs = upd[0][3]
-            okupd = rhs[0] == "call" and rhs[1].endswith("::ne") and is_var(rhs[2][0], ovar)
-        elif not upd:
-            # `if *o != GF(0) { errors = true; }` - the flag is only ever set, never cleared, inside the loop
-            sets = [st for st in T.stmt_walk(loops[0][3]) if st[0] == "assign" and is_var(st[1], "errors")]
-            conds = [st for st in loops[0][3] if st[0] == "if" and st[1][0] == "call" and st[1][1].endswith("::ne") and is_var(st[1][2][0], ovar)
-                     and len(st[2]) == 1 and st[2][0][0] == "assign" and is_var(st[2][0][1], "errors") and st[2][0][2] == ("lit", True) and not st[3]]
-            okupd = len(sets) == 1 and len(conds) == 1
-            det = "if-form"
+        body = loops[0][3]
+        # expressions that denote this iteration's syndrome: `*o` after the store, or an immutable local that is stored to `*o`
+        stored = [k for k, st in enumerate(body) if st[0] == "assign" and is_var(st[1], ovar)]
+        val_vars = {st[2][1] for st in body if st[0] == "assign" and is_var(st[1], ovar) and st[2][0] == "var"
+                    and any(l[0] == "let" and not l[2] and l[1].split("#")[0] == st[2][1] for l in body)}
+
+        def is_zero(x):
+            return isinstance(x, tuple) and ((x[0] == "adt" and x[1].endswith("galois::GF") and len(x[3]) == 1 and x[3][0][1] == ("lit", 0)) or x == ("lit", 0))
+
+        def nonzero_test(c, pos):
+            """c is `v != GF(0)` (or `!(v == GF(0))`) for this iteration's syndrome v"""
+            neg = False
+            if c[0] == "un" and c[1] == "Not":
+                c, neg = c[2], True
+            if not (c[0] == "call" and (c[1].endswith("::ne") or c[1].endswith("::eq")) and len(c[2]) == 2) and not (c[0] == "bin" and c[1] in ("Ne", "Eq")):
+                return False
+            name = c[1].split("::")[-1].lower() if c[0] == "call" else c[1].lower()
+            if (name == "eq") != neg:
+                return False
+            a, b2 = (c[2][0], c[2][1]) if c[0] == "call" else (c[2], c[3])
+            for v, z in ((a, b2), (b2, a)):
+                if v[0] == "field" and v[2] == "0":
+                    v = v[1]
+                if is_zero(z) and ((is_var(v, ovar) and stored and stored[0] < pos) or (v[0] == "var" and v[1] in val_vars)):
+                    return True
+            return False
+        all_sets = [st for st in T.stmt_walk(body) if st[0] in ("assign", "assignop") and is_var(st[1] if st[0] == "assign" else st[2], "errors")]
+        good = 0
+        for k, st in enumerate(body):
+            if st[0] == "assign" and is_var(st[1], "errors"):
+                rhs = st[2]
+                det = T.sx_show(rhs)
+                if rhs[0] == "logic" and rhs[1] == "Or" and any(is_var(p2, "errors") for p2 in (rhs[2], rhs[3])) and any(nonzero_test(p2, k) for p2 in (rhs[2], rhs[3])):
+                    good += 1
+                elif rhs[0] == "bin" and rhs[1] == "BitOr" and any(is_var(p2, "errors") for p2 in (rhs[2], rhs[3])) and any(nonzero_test(p2, k) for p2 in (rhs[2], rhs[3])):
+                    good += 1
+            elif st[0] == "assignop" and is_var(st[2], "errors") and st[1] == "BitOrAssign" and nonzero_test(st[3], k):
+                good += 1
+            elif st[0] == "if" and isinstance(st[1], tuple) and st[1][0] != "iflet" and nonzero_test(st[1], k):
+                # `if v != GF(0) { errors = true; }`: the flag is only ever set inside the loop
+                inner = [x for x in T.stmt_walk(st[2]) if x[0] in ("assign", "assignop") and is_var(x[1] if x[0] == "assign" else x[2], "errors")]
+                top = [x for x in st[2] if x[0] == "assign" and is_var(x[1], "errors") and x[2] == ("lit", True)]
+                in_else = [x for x in T.stmt_walk(st[3]) if x[0] in ("assign", "assignop") and is_var(x[1] if x[0] == "assign" else x[2], "errors")]
+                if len(inner) == 1 and len(top) == 1 and not in_else:
+                    good += 1
+                    det = "if-form"
+        # every store to the flag inside the loop is one of the accepted OR-updates (nothing clears it), and there is one
+        okupd = good >= 1 and len(all_sets) == good and len(stored) == 1
+        init = [st for st in psts if st[0] == "let" and st[1].split("#")[0] == "errors"]
+        okinit = len(init) == 1 and init[0][3] == ("lit", False)
+        other_sets = [st for st in T.stmt_walk(psts) if st[0] in ("assign", "assignop") and is_var(st[1] if st[0] == "assign" else st[2], "errors")]
         tail = psts[-1]
-        ok = over_out and okupd and tail[0] == "expr" and is_var(tail[1], "errors")
+        ok = over_out and okupd and okinit and len(other_sets) == len(all_sets) and tail[0] == "expr" and is_var(tail[1], "errors")
     obs.append(Ob(r, "pee-or", ok, "primitive_element_evaluation returns true iff some evaluated syndrome is non-zero (OR over every entry of `out`)", site=T.span_str(pe["span"]), detail=det))
     # decode(): Ok only after every block returned Ok
     dsts, _ = T.fn_stmts(f, DEC)
@@ -822,13 +850,13 @@ def gather_scatter(ctx):
     # simple pure lets for n, n_data, n_error
     pure = {}
     for s in sts:
-        if s[0] == "let":
+        if s[0] == "let" and not s[2]:
             pure[s[1].split("#")[0]] = s[3]
 
     def expand(e, depth=6):
         if depth == 0:
             return e
-        if e[0] == "var" and e[1] in pure and e[1] in ("n", "n_data", "n_error", "i", "idx", "pos", "t", "v"):
+        if e[0] == "var" and e[1] in pure:
             return expand(pure[e[1]], depth - 1)
         if e[0] == "bin":
             return ("bin", e[1], expand(e[2], depth - 1), expand(e[3], depth - 1))
@@ -883,7 +911,9 @@ def gather_scatter(ctx):
     site = corr[4]
     inner = corr[3]
     ilets = {st[1].split("#")[0]: st[3] for st in inner if st[0] == "let"}
-    pure.update(ilets)
+    pure.update({st[1].split("#")[0]: st[3] for st in inner if st[0] == "let" and not st[2]})
+    # `let mut it = <view>; it.nth(k)`: an iterator that is bound mutably only to be advanced once
+    once = {st[1].split("#")[0]: st[3] for st in inner if st[0] == "let" and st[2] and T._count_var(inner, st[1]) == 1}
     # location variable
     loc_ok = False
     ivar = None
@@ -912,7 +942,10 @@ def gather_scatter(ctx):
         if src is not None:
             nth = [x for x in T.sx_walk(src) if x[0] == "call" and x[1].endswith("::nth")]
             if len(nth) == 1:
-                v = _norm_view(nth[0][2][0], f)
+                recv = nth[0][2][0]
+                if recv[0] == "var" and recv[1] in once:
+                    recv = once[recv[1]]
+                v = _norm_view(recv, f)
                 idx = expand(nth[0][2][1])
                 det = {"view": T.sx_show(nth[0][2][0], 200), "index": T.sx_show(idx, 200)}
                 same_view = v is not None and ref_view is not None and v == ref_view
